@@ -141,15 +141,6 @@ end
 
 /-! ### the programs of F5 -/
 
-/-- F5 programs: F4 (level 5: macro calls allowed) and macros: distinct names, distinct variables, bodies in the fragment, every
-label of a macro body defined once in it, and every label it mentions defined in it -/
-def CgProg5 (p : Program) : Prop :=
-  seqFrom p.routines 0 = true ∧ (∀ r ∈ p.routines, cgStmts 5 r.body = true) ∧ (allDefs p).Nodup ∧
-  (∀ r ∈ p.routines, ∀ n ∈ mlStmts r.body, n ∈ allDefs p) ∧ (p.macros.map (·.name)).Nodup ∧
-  ∀ m ∈ p.macros, m.vars.Nodup ∧ cgStmts 5 m.body = true ∧ (dfStmts m.body).Nodup ∧ ∀ n ∈ mlStmts m.body, n ∈ dfStmts m.body
-
-instance (p : Program) : Decidable (CgProg5 p) := by unfold CgProg5; infer_instance
-
 theorem frontGuard_of_cg5 (p : Program) (h : CgProg5 p) : FrontGuard p := by
   obtain ⟨_, hall, hnd, _, _, hmac⟩ := h
   exact ⟨⟨fun m hm => (cg_stmts_facts 5 m.body (hmac m hm).2.1).ok, fun r hr => (cg_stmts_facts 5 r.body (hall r hr)).ok⟩,
